@@ -172,13 +172,14 @@ def reconfirm(ev, detail):
     return H.confirm_witness_exact(ev["_hyp_exact"], ev["_tg_exact"][i], q, d, ev["_hyp_dev"], ev["_tg_dev"][i])
 
 
-def main(tier, replay=None):
-    rep = Report(PROP, tier)
-    rd = run_dir(PROP)
+def main(tier, replay=None, rep=None, prop=PROP, cases=None):
+    collect = rep is not None
+    rep = rep or Report(PROP, tier)
+    rd = run_dir(PROP + ("-sub" if collect else ""))
     if replay:
         with open(replay) as f:
             cases = [json.load(f)["case"]["case"]]
-    else:
+    elif cases is None:
         cases = gen_cases(tier)
     traces = family.pmap(run_case, cases, chunksize=2)
     verdicts = family.judge_traces(rep, "TraceElim", "TraceElim.cfg", traces, rd, batch=250)
@@ -194,7 +195,9 @@ def main(tier, replay=None):
                 tactic_rows[str(tn)] = tactic_rows.get(str(tn), 0) + 1
             if any(tn > 0 for tn in ev["_tactics"]) and ev["exc"] == "none":
                 nontrivial.add(digest([by_id[t["id"]]["S"], by_id[t["id"]]["ctx"], ev["elim"], ev["op"], ev["order"], ev["simplify"]]))
-            if kind == "violation":
+            if kind == "violation" and prop == "C14" and not detail.startswith("exception:"):
+                counts["other-property"] = counts.get("other-property", 0) + 1
+            elif kind == "violation":
                 if not reconfirm(ev, detail):
                     die("C04: TLC confirmed a witness that exact arithmetic on the unsnapped floats rejects: %s" % json.dumps(family.clean_json(ev))[:600])
                 used = sorted({tn for tn in ev["_tactics"] if tn > 0})
@@ -212,6 +215,8 @@ def main(tier, replay=None):
     import shutil
 
     shutil.rmtree(rd, ignore_errors=True)
+    if collect:
+        return {"evaluations": n_ev, "nontrivial": nontrivial, "traces": len(traces), "verdict_counts": counts}
     return rep.finish({
         "evaluations": n_ev,
         "distinct_nontrivial": len(nontrivial),
